@@ -1,6 +1,6 @@
 import extract
 import callgraph
-from rules import c01, c01i, c01p, recursion, bufbudget, common
+from rules import c01, c01i, c01p, c01s, recursion, bufbudget, common
 
 # entry points whose recursion is driven by user-shaped data (reader, writer, equal?, eval, strip)
 C01_RECURSION_ROOTS = ["sexp_read_op", "sexp_write_op", "sexp_equalp_op", "sexp_eval_op", "sexp_analyze",
@@ -33,6 +33,7 @@ def run(res, tier, replay=None):
     c01p.run(prog, res, floor=10, entry_names=prims, advisory=c01p.library_scope())
     c01p.run_q(prog, res)
     c01p.run_r(prog, res)
+    c01s.run(prog, res, floor=20)
     if tier == "thorough":
         flt = c01.scope_filter()
         common.thorough_mutations(res, "C01", {
@@ -54,6 +55,7 @@ def run(res, tier, replay=None):
             "C01.p": lambda p, r: c01p.run(p, r, floor=0, entry_names=c01.primitives(p), advisory=c01p.library_scope(p.root)),
             "C01.q": lambda p, r: c01p.run_q(p, r),
             "C01.r": lambda p, r: c01p.run_r(p, r, floor=0),
+            "C01.s": lambda p, r: c01s.run(p, r, floor=0),
         })
     if tier == "thorough":
         # after the mutation witnesses: findings of other configurations must not count as their baseline
@@ -86,5 +88,7 @@ def run(res, tier, replay=None):
         "constant or hand the obligation up (SIGFPE kills the process). (q) no immediate constant (SEXP_FALSE, NULL ...) is passed "
         "to a parameter that the callee, or a function it hands the value to, dereferences before testing it. (r) indexes into the "
         "context's type table that carry the unboxed value of a parameter are dominated by 0 <= id < number of types. "
+        "(s) a value that sexp_complex_normalize may have turned into a real (the result of a complex helper or of the generic "
+        "operations, or a freshly made flonum / ratio) is not passed to a parameter that is read as a complex number without a test. "
         "Not decided: pointer-walking loops, memcpy lengths, the signal-handler table, "
         "the reader's label table (value invariant), reader token buffers beyond C01.h, stack growth sufficiency, OOM paths.")
